@@ -8,7 +8,8 @@ M  Pipeline.tla with a sink fault: Terminates (liveness under fairness, no state
 R  fault enumeration on the REAL ToSTL / To3MF / ToDXF / ToSVG, each case in a child process: output
    path that cannot be created (missing directory, parent is a file), RLIMIT_FSIZE at every flush
    boundary of the streamed file (+-1 byte, header, final flush), /dev/full; volumes below, at and
-   above the buffer threshold.  A case is a hang only if the call did not return AND the goroutine
+   above the buffer threshold; and the real renderers without a scripted producer (uniform layers of
+   exactly 1-4 evaluation batches, octree, 2D) with and without faults.  A case is a hang only if the call did not return AND the goroutine
    dump shows the producer blocked in the buffer's channel send.
 T  FaultTrace.tla judges every observation; goroutine counts after 1,2,4,8,16 renders of every entry
    point / renderer in one process are judged against a bound independent of k.
@@ -53,11 +54,24 @@ def fault_vectors(tier, TT, TL):
                 vs.append(dict(sink=sink, mode=mode, limit=0, items=items, batch=37))
             for lim in (0, 1, 100, 1000, 4096, 20000):
                 vs.append(dict(sink=sink, mode="fsize", limit=lim, items=items, batch=37))
+    # real renderers (no scripted producer): the call must return whatever the lattice size -
+    # layers of exactly 1, 2, 3, 4 evaluation batches, and just off them
+    for d in ([3, 6, 6], [3, 8, 8], [3, 10, 10], [2, 8, 18], [2, 15, 15], [2, 13, 18], [2, 18, 18], [2, 8, 8], [2, 7, 8], [2, 8, 9]):
+        vs.append(dict(sink="stl", mode="none", limit=0, items=0, batch=1, real="mcu:%d" % max(d), dims=d))
+    vs.append(dict(sink="3mf", mode="none", limit=0, items=0, batch=1, real="mcu:8", dims=[3, 8, 8]))
+    for real, sink in (("mco:20", "stl"), ("msu:30", "svg"), ("msq:40", "dxf")):
+        for mode in ("none", "nodir", "devfull"):
+            vs.append(dict(sink=sink, mode=mode, limit=0, items=0, batch=1, real=real, dims=[3, 4, 5]))
+    for lim in (0, 84, 4096, 20000):
+        vs.append(dict(sink="stl", mode="fsize", limit=lim, items=0, batch=1, real="mcu:10", dims=[10, 10, 10]))
+        vs.append(dict(sink="stl", mode="fsize", limit=lim, items=0, batch=1, real="mco:24", dims=[10, 10, 10]))
     return vs
 
 
 def key_of(o, why):
     v = o["vec"]
+    if v.get("real"):
+        return "%s:%s:%s:%s:%s" % (v["sink"], v["mode"], v["real"], "x".join(map(str, v["dims"])), why)
     return "%s:%s:%s" % (v["sink"], v["mode"], why)
 
 
@@ -112,35 +126,39 @@ def run(chk, replay_rec):
     obs = [json.loads(x) for x in out.splitlines() if x.strip()]
     if len(obs) != len(vecs):
         raise vlib.Inconclusive("fault replay returned %d of %d" % (len(obs), len(vecs)))
-    # ---- goroutine counts
-    out = chk.vh(["c12-goroutines"], timeout=900)
-    gor = [json.loads(x) for x in out.splitlines() if x.strip()]
-    first = {}
-    for g in gor:
-        if g["k"] == 1:
-            first[g["what"]] = g["live"]
-    for g in gor:
-        g["first"] = first[g["what"]]
-    allobs = obs + gor
-    bad = chk.validate("FaultTrace", allobs, chunks=1, timeout=900)
-    chk.traces += len(allobs)
-    incon = getattr(chk, "last_drift", [])
+    bad = chk.validate("FaultTrace", obs, chunks=1, timeout=900)
+    chk.traces += len(obs)
+    incon = list(getattr(chk, "last_drift", []))
     for e, why in bad:
-        if e["ev"] == "fault":
-            v = e["vec"]
-            chk.violation(key_of(e, why) + ":limit%d:items%d" % (v["limit"], v["items"]),
-                          "real %s call did not return: mode=%s limit=%d items=%d; writer error after %d items; last events %s" % (
-                              v["sink"], v["mode"], v["limit"], v["items"], e["failitem"], e["events"][-4:]), dict(vector=v))
-        else:
+        v = e["vec"]
+        chk.violation(key_of(e, why) + ":limit%d:items%d" % (v["limit"], v["items"]),
+                      "real %s call did not return (%s %s): mode=%s limit=%d items=%d renderer=%s dims=%s; writer error after %d items; last events %s" % (
+                          v["sink"], why, e.get("fault", ""), v["mode"], v["limit"], v["items"], v.get("real", "scripted"), v.get("dims"), e["failitem"], e["events"][-4:]), dict(vector=v))
+    gor = []
+    if not chk.violations:
+        # ---- goroutine counts (in one process: only meaningful when every call returns)
+        out = chk.vh(["c12-goroutines"], timeout=900)
+        gor = [json.loads(x) for x in out.splitlines() if x.strip()]
+        first = {}
+        for g in gor:
+            if g["k"] == 1:
+                first[g["what"]] = g["live"]
+        for g in gor:
+            g["first"] = first[g["what"]]
+        badg = chk.validate("FaultTrace", gor, chunks=1, timeout=900)
+        chk.traces += len(gor)
+        for e, why in badg:
             chk.violation("goroutines:%s" % e["what"],
                           "goroutines alive after %d x %s: %d (after the first: %d, before: %d, NumCPU %d)" % (
                               e["k"], e["what"], e["live"], e["first"], e["base"], e["numcpu"]), dict(kind="goroutines", what=e["what"]))
+    allobs = obs + gor
     if incon:
         raise vlib.Inconclusive("%d fault runs neither returned nor showed a blocked send, e.g. %s" % (len(incon), incon[0]["vec"]))
     faulted = sum(1 for o in obs if o["errs"] > 0 or "top.createfail" in " ".join(o["events"]))
     for o in obs[:len(obs):max(1, len(obs) // 4)]:
         chk.sample(dict(vec=o["vec"], returned=o["returned"], writer_errors=o["errs"], fail_item=o["failitem"], filesize=o["filesize"]))
-    chk.sample(dict(goroutines=[(g["what"], g["k"], g["live"]) for g in gor[:5]]))
+    if gor:
+        chk.sample(dict(goroutines=[(g["what"], g["k"], g["live"]) for g in gor[:5]]))
     chk.cov.update(dict(fault_cases=len(obs), fault_cases_where_the_sink_failed=faulted,
                         evaluations=len(allobs), distinct_nontrivial=faulted,
                         goroutine_observations=len(gor), exhaustive=False,
